@@ -990,6 +990,9 @@ def run_tilt(case, seed, R):
     # rounding floors: proportional to the tilt, plus the resolution of the vertex position (ulp of the launch distance)
     floorS = 16 * EPS * tilt + 64 * EPS * abs(g.c) * (1 + abs(z0)) * (g.kind != 'plane')
     floorz = 32 * EPS * abs(z0)
+    with np.errstate(all='ignore'):
+        stat('tilt:deviation', np.nan_to_num(np.abs(Sh[1] - wantS) / (1e-9 * np.abs(wantS) + floorS + 1e-300), nan=0.0, posinf=np.inf).max(axis=1), np.ones(len(Pa), bool))
+        stat('tilt:offset', np.nan_to_num(np.abs(Ph[1][:, 2] - wantz) / (1e-9 * np.abs(wantz) + floorz + 1e-300), nan=0.0, posinf=np.inf), np.ones(len(Pa), bool))
     R.expect_close(Sh[1], np.tile(wantS, (len(Pa), 1)), 1e-9 * np.abs(wantS) + floorS, f'tilt:deviation:{mag}',
                    f'outgoing direction of the +z ray at the vertex of a surface tilted by {ang} deg ({case["form"]}); the deviation is ~2 x tilt = {2 * tilt:.3e}')
     R.expect_close(Ph[1][:, 2], wantz, 1e-9 * np.abs(wantz) + floorz, f'tilt:offset:{mag}',
